@@ -77,6 +77,7 @@ class Contract:
         return self.target.replace('stix2/', '').replace('.py::', '.').replace('/', '.')
 
     def lift_local(self, sort, v):
+        if sort == 'set' and v.sort == 'litdict' and not v.x: return Val('set', E.EMPTY)       # a dict used only through its key set
         if sort.startswith('opt:') and not v.sort.startswith('opt:'):
             inner = sort[4:]
             if v.sort == 'none':
